@@ -80,3 +80,9 @@ MAN["C05"] = {"text": "Seeded exploration of logged histories with a replay of t
 L4_REAL = ["pilosa.Server, Holder, Index, Field, view, fragment, executor, cluster, API, TranslateFile, boltdb attribute stores", "http.Handler (real router, decoding, encoding) and http.InternalClient over the simulated transport", "encoding/proto Serializer", "real files on tmpfs through intercepted os calls"]
 L4_STUB = ["network: http.RoundTripper that calls the destination node's handler in-process (simrt/net.go)", "membership: gossip/memberlist replaced by a stub that delivers NodeEvent/NodeStatus through API.ClusterMessage", "stats, logger, tracing, diagnostics, GC notifier: no-op implementations shipped with pilosa"]
 PROPS["L4S"] = P("exploration", "smoke test of the cluster harness (not a property)", L4_REAL, L4_STUB, budget=(15, 60))
+
+PROPS["C15"] = P("exploration",
+    "Each evaluation is one seeded plan on a 1-4 node cluster (ReplicaN 1-2, executor pool 1/2/8/default): a schema with set, time, int, mutex and bool fields (existence tracking on or off), 10-90 operations mixing writes through every path (Set/Clear/ClearRow/Store PQL, Import, ImportValue, ImportRoaring in three encodings) on columns straddling shard and container edges of up to 4 shards, and generated expression trees (depth <= 3, arity <= 3) over Row (plain, aligned time range, integer condition), Union, Intersect, Difference, Xor, Not, Shift and Count issued to any node; every answer is compared with the model's evaluation of the same tree over logical column sets.",
+    L4_REAL, L4_STUB, budget=(45, 900))
+MAN["C15"] = {"text": "Seeded exploration of datasets, write paths and expression trees on simulated 1-4 node clusters; results compared with a set-algebra model.",
+              "note": "Expression trees are bounded (depth 3, arity 3); ClearRow/Store only with ReplicaN=1 (DESIGN appendix A). The model uses plain integer comparison and timestamp-in-range semantics."}
